@@ -425,26 +425,38 @@ func W1R(sink Sink) {
 		for _, L := range lens {
 			for pos := -1; pos < L; pos++ {
 				for _, bb := range bad {
-					run = run[:0]
-					for i := 0; i < L; i++ {
-						run = append(run, wsb[(i+bi)%4])
-					}
-					if pos >= 0 {
-						run[pos] = bb
-					}
-					for side := 0; side < 2; side++ {
-						buf = buf[:0]
-						if side == 0 {
-							buf = append(buf, run...)
-							buf = append(buf, base...)
-						} else {
-							buf = append(buf, base...)
-							buf = append(buf, run...)
+					for pat := 0; pat < 3; pat++ {
+						// run patterns: the four whitespace bytes cycled, all spaces, all of one other
+						// whitespace byte (a fast path that compares whole words with a constant only
+						// triggers on homogeneous runs; seeded change C13r2-m2)
+						run = run[:0]
+						for i := 0; i < L; i++ {
+							switch pat {
+							case 0:
+								run = append(run, wsb[(i+bi)%4])
+							case 1:
+								run = append(run, ' ')
+							default:
+								run = append(run, wsb[1+(bi+L)%3])
+							}
 						}
-						c.Input = buf
-						c.Desc = ""
-						c.P = [4]int{bi, L, pos, int(bb)<<1 | side}
-						sink(c)
+						if pos >= 0 {
+							run[pos] = bb
+						}
+						for side := 0; side < 2; side++ {
+							buf = buf[:0]
+							if side == 0 {
+								buf = append(buf, run...)
+								buf = append(buf, base...)
+							} else {
+								buf = append(buf, base...)
+								buf = append(buf, run...)
+							}
+							c.Input = buf
+							c.Desc = ""
+							c.P = [4]int{bi, L, pos, int(bb)<<1 | side}
+							sink(c)
+						}
 					}
 					if pos < 0 {
 						break
